@@ -28,6 +28,10 @@ def write_meta_file(ins, path):
         lines.append(" ".join(["meta", str(x["id"]), hexname(x.get("tlName") or ""), b(x.get("topLevel")),
                                b(x.get("isFunction")), b(x.get("isMaybe")), b(x.get("originTL2")), b(x.get("hasTL2")),
                                str(x.get("tag", 0))] + [hexname(a) for a in x.get("annotations") or []]))
+        if x["kind"] == "struct":
+            for i, f in enumerate(x.get("fields") or []):
+                tb = f.get("tl2bit")
+                lines.append(f"af {x['id']} {i} {b(f.get('isBit'))} {'-' if tb is None else tb} {b((f.get('name') or '').startswith('_'))}")
     Path(path).write_text("\n".join(lines) + "\n")
 
 
